@@ -8,7 +8,7 @@ import re
 
 from .core import op_place, op_local, callee_name, last_seg, norm_path, walk_expr
 from .report import RuleResult, Violation
-from .guard import (Obl, dom_atoms, call_atom, has_call, agg_sites, calls_named, named_roots, roots_named, reach)
+from .guard import (Obl, dom_atoms, call_atom, has_call, agg_sites, calls_named, named_roots, roots_named, reach, deep_has_call, deep_leaves)
 from .tag import leaves, strip_casts
 from .taint import Taint
 
@@ -527,6 +527,15 @@ def spfa_dequeue(facts):
                 base = b.local_expr(lhs["l"], 8, named_leaf=True)
                 if any(x[0] == "local" and "bool" in b.lty(x[1]) for x in leaves(base)):
                     stores.append(i)
+        # the same mark on a bit set / hash set: set(i, false), remove(i)
+        for i, t in b.calls():
+            np_ = norm_path(t["f"]["path"])
+            if not np_.startswith(("fixedbitset::FixedBitSet", "std::collections::HashSet", "hashbrown::HashSet", "alloc::collections::BTreeSet", "std::collections::hash::set::HashSet",
+                                   "alloc::collections::btree::set::BTreeSet", "hashbrown::set::HashSet")):
+                continue
+            nm = last_seg(np_)
+            if nm == "remove" or (nm == "set" and len(t["args"]) >= 3 and t["args"][2].get("const") in ("0", "false")):
+                stores.append(i)
         o.check(b, "dequeue-store", b.line, bool(stores), "in_queue[i] = false found", "no `in_queue[..] = false` store found")
         n = 0
         # the work list: the container that is popped (any end) - identified by the pop, not by its name
@@ -708,8 +717,8 @@ def grow_then_index(facts):
                 continue
             n += 1
             size_e = b.expr(t["args"][1], 8, named_leaf=True)
-            size_roots = {x for x in leaves(size_e) if x[0] in ("local", "arg")}
-            ok = bool(size_roots & guard_ix) or has_call(size_e, ("node_bound", "edge_bound"))
+            size_roots = {x for x in deep_leaves(b, size_e) if x[0] in ("local", "arg")}
+            ok = bool(size_roots & guard_ix) or deep_has_call(b, size_e, ("node_bound", "edge_bound"))
             site = "%s#%d" % (nm, n)
             if ok:
                 r.ok(b.npath, site, "new length derives from the guarded index / an index bound")
